@@ -8,6 +8,7 @@ import (
 	"testing"
 
 	"github.com/runreveal/pql"
+	"github.com/runreveal/pql/parser"
 	"pgregory.net/rapid"
 
 	"verif/harness/gen"
@@ -52,6 +53,9 @@ func checkRules(c ruleCase) string {
 		}
 	}
 	if r.Err == nil {
+		if _, perr := parser.Parse(src); perr != nil {
+			return fmt.Sprintf("Compile succeeds although the parser rejects the source: %v\nsql: %s", firstLine(perr.Error()), r.SQL)
+		}
 		// "fails when the source does not parse": a source whose tokens the
 		// parsed tree does not account for has not been parsed (C08's criterion)
 		if msg, _, _ := checkAccept(src); msg != "" {
@@ -394,6 +398,19 @@ func TestC13EitherOr(t *testing.T) {
 		src, params, class := genTotalCase(rt)
 		if len(src) > 600 {
 			src = src[:600]
+		}
+		if rapid.IntRange(0, 9).Draw(rt, "affix") == 0 {
+			// a good program with something in front of or behind it that no
+			// layer may quietly take away
+			g := gen.NewG(rt, gen.Cfg{MaxDepth: 2, MaxOps: 3, JoinDepth: 1, Lets: true, Compilable: true})
+			good := gen.Source(g.Program())
+			affix := rapid.SampledFrom([]string{"\ufeff", "\ufeff\ufeff", "\u200b", "\xef\xbb", "\x00", "#!", "\ufffe", "\u202e", "\x1a"}).Draw(rt, "affixtext")
+			if rapid.Bool().Draw(rt, "suffix") {
+				src = good + affix
+			} else {
+				src = affix + good
+			}
+			class = "affixed-program"
 		}
 		st.Eval()
 		st.Class(class)
